@@ -498,6 +498,8 @@ def install(eng):
         r = z3.If(z3.Select(d, kt), z3.Select(m, kt), dt)
         st.assume(eng.external_ref_fact(st, r))
         vt_ = getattr(eng, "value_type", None)
+        if callable(vt_) and not hasattr(vt_, "pred"):
+            vt_ = vt_(eng, st, self)  # per-map declaration: function of the map being looked up
         if vt_ is not None:
             if hasattr(vt_, "bind"):
                 vt_.bind(eng)
@@ -759,3 +761,24 @@ def install_wrappers(eng):
     # both of which PersistentMap delegates to the wrapped immutables.Map (trusted: stdlib mixins)
     for nm in ("items", "keys", "values"):
         eng.method_models[(PersistentMap, nm)] = Model(f"PersistentMap.{nm}", via_inner(nm))
+
+
+def install_assoc_model(eng):
+    """Call-site model of PersistentMap.assoc(k, v) / dissoc(k): a new wrapper around inner.set / inner.delete
+    with the same metadata.  The real bodies are verified against exactly this statement in the C04 pack."""
+    from basilisp.lang.map import PersistentMap
+
+    imap = eng.libcls["IMap"]
+
+    def assoc(e, s, args, k):
+        if len(args) != 3:
+            raise Unsupported("assoc model: exactly one key/value pair")
+        self, key, val = args
+        inner = e.load_field(s, self.t, "_inner", PersistentMap)
+        for s1, new_inner in e.method_models[(imap, "set")].fn(e, s, [inner, key, val], {}):
+            obj = e.alloc(s1, PersistentMap)
+            e.store_field(s1, obj.t, "_inner", new_inner.t, PersistentMap)
+            e.store_field(s1, obj.t, "_meta", z3.Select(s1.field_array("_meta"), V.Val.a(self.t)), PersistentMap)
+            yield s1, obj
+
+    eng.method_models[(PersistentMap, "assoc")] = Model("PersistentMap.assoc", assoc)
